@@ -625,6 +625,7 @@ class RecSession(Session):
 
     async def reset(self):
         self.log.append(("reset", self.username, self.database))
+        await super().reset()        # whatever the library's Session does on a reset is part of what is checked
 
     async def use(self, database):
         self.log.append(("use", database))
